@@ -11,6 +11,12 @@ from .snapshot import AnalysisBroken
 UNKNOWN = None
 
 
+def symbol_id(name):
+    """Stable symbolic constant standing for the address of a named static object."""
+    import zlib
+    return 1000000000 + (zlib.crc32(name.encode()) % 1000000)
+
+
 def eval_in(store, x, fn=None, call_eval=None, depth=0):
     """Evaluate expression x to an int in `store`, or None."""
     if depth > 30 or not isinstance(x, dict):
@@ -42,6 +48,8 @@ def eval_in(store, x, fn=None, call_eval=None, depth=0):
         t = lv(x)
         if t in store:
             return store[t]
+        if k == "ref" and x.get("dk") in ("slocal", "global") and "[" in (x.get("t") or ""):
+            return symbol_id(x["n"])  # address of a static array: a symbolic non-zero constant
         return None
     if k == "call":
         if call_eval:
